@@ -108,6 +108,7 @@ func (h *hist) commit(op *pendingOp) (err error, alive bool) {
 			}
 			h.admit(a, p, idx)
 			delete(h.pendJoin, a)
+			delete(h.pendRemove, a) // applyInviteJoinWithoutApprove drops the joiner's pending request of any type
 			items = append(items, fmt.Sprintf("enter %d %s", a, t))
 		case c.GetRequestJoin() != nil:
 			a := h.accByProto(c.GetRequestJoin().InviteIdentity)
